@@ -240,8 +240,30 @@ impl InterfaceInner {
             return None;
         }
 
+        // A raw socket is selected by the upper-layer protocol, also when a hop-by-hop header
+        // precedes it, and is handed the packet as it arrived: its header together with all of
+        // its payload, that extension header included.
         #[cfg(feature = "socket-raw")]
-        let handled_by_raw_socket = self.raw_socket_filter(sockets, &ipv6_repr.into(), ip_payload);
+        let handled_by_raw_socket = if ipv6_repr.next_header == next_header {
+            self.raw_socket_filter(sockets, &ipv6_repr.into(), ip_payload)
+        } else {
+            let upper_repr = IpRepr::Ipv6(Ipv6Repr {
+                next_header,
+                ..ipv6_repr
+            });
+            let ip_repr = IpRepr::Ipv6(ipv6_repr);
+            let mut handled_by_raw_socket = false;
+            for raw_socket in sockets
+                .items_mut()
+                .filter_map(|i| raw::Socket::downcast_mut(&mut i.socket))
+            {
+                if raw_socket.accepts(&upper_repr) || raw_socket.accepts(&ip_repr) {
+                    raw_socket.process(self, &ip_repr, ipv6_packet.payload());
+                    handled_by_raw_socket = true;
+                }
+            }
+            handled_by_raw_socket
+        };
         #[cfg(not(feature = "socket-raw"))]
         let handled_by_raw_socket = false;
 
